@@ -200,3 +200,50 @@ Lemma published_in_the_closure_refuted :
   seen_by KChain [KChain; KPublish; KHandler] false = Some false
   /\ seen_by KHandler [KChain; KPublish; KHandler] false = Some true.
 Proof. split; reflexivity. Qed.
+
+(** * Several alternatives (an OR of requirement objects) naming one scheme.
+    Every (alternative, scheme) pair is described, in document order, and the wrapper stores them in that order: the key
+    of a scheme holds the scopes of the LAST alternative that names it. *)
+Lemma describe_app a b : describe (a ++ b) = (describe a ++ describe b)%list.
+Proof. unfold describe. apply flat_map_app. Qed.
+
+Theorem last_alternative_wins (key_of : string -> string) before r after s :
+  NoDup (map fst r) -> In s (map fst r) ->
+  (forall k, In k (map fst r) -> k <> s -> key_of k <> key_of s) ->
+  (forall r' k, In r' after -> In k (map fst r') -> key_of k <> key_of s) ->
+  ctx_get (publish key_of (describe (before ++ r :: after))) (key_of s) = Some (lookup_scopes r s).
+Proof.
+  intros Hnd Hin Hr Hafter.
+  assert (Hperm : Permutation (map fst r) (sorted_map_keys r)) by (apply sort_strings_is_perm).
+  assert (Hs : In s (sorted_map_keys r)) by (eapply Permutation_in; eassumption).
+  assert (Hnd' : NoDup (sorted_map_keys r)) by (eapply Permutation_NoDup; eassumption).
+  apply in_split in Hs. destruct Hs as [l1 [l2 Hsplit]].
+  rewrite describe_app. change (r :: after) with ([r] ++ after)%list. rewrite describe_app.
+  unfold describe at 2. cbn [flat_map]. rewrite app_nil_r. rewrite Hsplit. rewrite map_app. cbn [map].
+  rewrite <- !app_assoc. cbn [app]. rewrite app_assoc.
+  apply publish_exact. intros d Hd. apply in_app_or in Hd. destruct Hd as [Hd|Hd].
+  - apply in_map_iff in Hd. destruct Hd as [k [Hk Hkin]]. subst d. cbn [fst].
+    assert (Hkr : In k (map fst r)).
+    { eapply Permutation_in; [apply Permutation_sym; exact Hperm|].
+      rewrite Hsplit. apply in_or_app. right. right. exact Hkin. }
+    apply Hr; [exact Hkr|]. intros ->. rewrite Hsplit in Hnd'. apply NoDup_remove_2 in Hnd'.
+    apply Hnd'. apply in_or_app. right. exact Hkin.
+  - unfold describe in Hd. apply in_flat_map in Hd. destruct Hd as [r' [Hr' Hd]].
+    apply in_map_iff in Hd. destruct Hd as [k [Hk Hkin]]. subst d. cbn [fst].
+    apply (Hafter r' k Hr'). eapply Permutation_in; [apply Permutation_sym, sort_strings_is_perm|exact Hkin].
+Qed.
+
+(** Describing a scheme only for the FIRST alternative that names it publishes other scopes. *)
+Fixpoint dedupe_first (seen : list string) (defs : list (string * list string)) : list (string * list string) :=
+  match defs with
+  | [] => []
+  | d :: rest => if existsb (String.eqb (fst d)) seen then dedupe_first seen rest
+                 else d :: dedupe_first (fst d :: seen) rest
+  end.
+
+Theorem first_alternative_refuted :
+  let alts := [[("oauth", ["reports:read"])]; [("oauth", ["reports:write"; "admin"]); ("apiKey", [])]] in
+  let key := fun s => s ++ "Scopes" in
+  ctx_get (publish key (describe alts)) "oauthScopes" = Some ["reports:write"; "admin"]
+  /\ ctx_get (publish key (dedupe_first [] (describe alts))) "oauthScopes" = Some ["reports:read"].
+Proof. vm_compute. split; reflexivity. Qed.
